@@ -25,6 +25,8 @@ PROJECT = {
     'b.aidl': 'package p.q;\n/** pd */\n@X\nparcelable P {\n  /** f */ @F int f = 3;\n  String g;\n  const int C = 2;\n  ParcelFileDescriptor pfd;\n  IBinder b;\n  Unknown u;\n}\n',
     'c.aidl': 'package p.q;\n/** e */ @Y\nenum E { /** a */ A = 1, B }\n',
     'd.aidl': 'package p.q;\nparcelable Fwd;\noneway interface J { void p(in Fwd f); oneway void q(); }\n',
+    # documentation comments without text (doc = Some("")), no oneway method: must survive on its own
+    'e.aidl': 'package p.q;\n/** */\nparcelable Q {\n  /**\n   */ int z;\n  /***/ const int W = 1;\n}\n',
 }
 
 
@@ -197,7 +199,9 @@ def check(run):
             nat = native_rt()
             lossy = [k for k, v in nat.items() if isinstance(v, dict) and v.get('ast') and not v.get('equal')]
             for key, w in bad:
-                run.violated('writer and reader of %s are consistent' % sname, 'M', key, dict(w, native_lossy_files=lossy, native=nat), bool(lossy), solver_s=tz, queries=max(1, nq))
+                # a finding about a doc field is confirmed by the file whose only peculiarity is text-less doc comments
+                conf = ('e.aidl' in lossy) if key.endswith('.doc') else bool(lossy)
+                run.violated('writer and reader of %s are consistent' % sname, 'M', key, dict(w, native_lossy_files=lossy, native=nat), conf, solver_s=tz, queries=max(1, nq))
         else:
             run.holds('struct %s: every skipped field is defaulted by the reader at exactly the skipped value; names agree (%d fields)' % (sname, len(fields)), 'M', queries=max(1, len(fields)))
     run.states += checked_fields
@@ -228,7 +232,21 @@ def model_field(prog, enums, callee, fty, default_ty):
             return v, z3.And(v == 0), z3.IntVal(0)
         if callee.endswith('::is_some'):
             return v, z3.And(v == 1), z3.IntVal(0)
-        raise mir.Unsupported('Option predicate ' + callee)
+        # a predicate of the crate over Option<String>: executed from its MIR (engine T) on None and on Some(arbitrary text)
+        import tmir
+        structs, enums2 = mir.layouts()
+        cands = [g for g in prog.fns if g.name.split('::')[-1] == callee.split('::')[-1] and len(g.params) == 1 and 'Option' in g.params[0][1] and '::verif' not in g.name]
+        if len(cands) != 1 or 'String' not in t:
+            raise mir.Unsupported('Option predicate ' + callee)
+        ex = tmir.Exec(prog, enums2, structs)
+        payload = z3.String('v_payload')
+        cases = []
+        for disc, val in ((0, ('enum', 'Option', 'None', [])), (1, ('enum', 'Option', 'Some', [payload]))):
+            for s2, ret in ex.run_fn(cands[0], [val], tmir.State()):
+                if not z3.is_expr(ret):
+                    raise mir.Unsupported('Option predicate %s returns %r' % (callee, ret))
+                cases.append(z3.And([v == disc] + list(s2.pc) + [ret]))
+        return v, z3.Or(cases), z3.IntVal(0)
     if t.startswith('Vec<') or t.startswith('HashMap<'):
         v = z3.Int('v_len')
         if callee.endswith('::is_empty'):
